@@ -1,5 +1,5 @@
 """group Pdu: nfc/llcp/pdu.py -> Model/Pdu.lean (C11, C10, C07)"""
-from translate_fn import Spec, INT, BYTES, ANY, OPT, TUP, REC
+from translate_fn import Spec, INT, BYTES, ANY, OPT, TUP, REC, LIST
 
 GROUP = "Pdu"
 ORDER = 40
@@ -11,6 +11,9 @@ _DH = {"cls.decode_header": "pdu_decode_header"}
 _DHN = {"cls.decode_header": "pdu_decode_header_n"}
 _EH = {"self.encode_header": "pdu_encode_header"}
 _EHN = {"self.encode_header": "pdu_encode_header_n"}
+_PD = {"Parameter.decode": "pdu_param_decode"}
+_PE = {"Parameter.encode": ["pdu_param_encode_int", "pdu_param_encode_bytes", "pdu_param_encode_sdreq",
+                            "pdu_param_encode_sdres"]}
 
 SPECS = [
     Spec(GROUP, "pdu_param_decode", F, "Parameter.decode", [("data", BYTES), ("offset", INT)], ret=TUP(INT, INT, ANY)),
@@ -61,6 +64,37 @@ SPECS = [
     Spec(GROUP, "pdu_rnr_decode", F, "ReceiveNotReady.decode", _DEC, calls=_DHN,
          records={"ReceiveNotReady": {"dsap": INT, "ssap": INT, "nr": INT}}),
     Spec(GROUP, "pdu_rnr_encode", F, "ReceiveNotReady.encode", [], binds=_NHDR, calls=_EHN),
+    # PAX / CONNECT / CC / SNL / DPS / AGF: encode and __len__
+    Spec(GROUP, "pdu_pax_encode", F, "ParameterExchange.encode", [], calls=dict(_EH, **_PE),
+         binds=_HDR + [("self._" + a, a, OPT(INT)) for a in ("version", "miux", "wks", "lto", "opt")]),
+    Spec(GROUP, "pdu_pax_len", F, "ParameterExchange.__len__", [],
+         binds=[("self._" + a, a, OPT(INT)) for a in ("version", "miux", "wks", "lto", "opt")]),
+    Spec(GROUP, "pdu_connect_encode", F, "Connect.encode", [], calls=dict(_EH, **_PE),
+         binds=_HDR + [("self.miu", "miu", INT), ("self.rw", "rw", INT), ("self.sn", "sn", OPT(BYTES))]),
+    Spec(GROUP, "pdu_connect_len", F, "Connect.__len__", [],
+         binds=[("self.miu", "miu", INT), ("self.rw", "rw", INT), ("self.sn", "sn", OPT(BYTES))]),
+    Spec(GROUP, "pdu_cc_encode", F, "ConnectionComplete.encode", [], calls=dict(_EH, **_PE),
+         binds=_HDR + [("self.miu", "miu", INT), ("self.rw", "rw", INT)]),
+    Spec(GROUP, "pdu_cc_len", F, "ConnectionComplete.__len__", [], binds=[("self.miu", "miu", INT), ("self.rw", "rw", INT)]),
+    Spec(GROUP, "pdu_snl_encode", F, "ServiceNameLookup.encode", [], calls=dict(_EH, **_PE),
+         binds=_HDR + [("self.sdreq", "sdreq", LIST(TUP(INT, BYTES))), ("self.sdres", "sdres", LIST(TUP(INT, INT)))]),
+    Spec(GROUP, "pdu_snl_len", F, "ServiceNameLookup.__len__", [],
+         binds=[("self.sdreq", "sdreq", LIST(TUP(INT, BYTES))), ("self.sdres", "sdres", LIST(TUP(INT, INT)))]),
+    Spec(GROUP, "pdu_dps_encode", F, "DataProtectionSetup.encode", [], calls=dict(_EH, **_PE),
+         binds=_HDR + [("self.ecpk", "ecpk", OPT(BYTES)), ("self.rn", "rn", OPT(BYTES))]),
+    Spec(GROUP, "pdu_dps_len", F, "DataProtectionSetup.__len__", [],
+         binds=[("self.ecpk", "ecpk", OPT(BYTES)), ("self.rn", "rn", OPT(BYTES))]),
+    Spec(GROUP, "pdu_pax_decode", F, "ParameterExchange.decode", _DEC, calls=dict(_DH, **_PD),
+         records={"ParameterExchange": {"dsap": INT, "ssap": INT, "version": ANY, "miux": ANY, "wks": ANY, "lto": ANY, "opt": ANY}}),
+    Spec(GROUP, "pdu_connect_decode", F, "Connect.decode", _DEC, calls=dict(_DH, **_PD),
+         records={"Connect": {"dsap": INT, "ssap": INT, "miu": INT, "rw": ANY, "sn": ANY}}),
+    Spec(GROUP, "pdu_cc_decode", F, "ConnectionComplete.decode", _DEC, calls=dict(_DH, **_PD),
+         records={"ConnectionComplete": {"dsap": INT, "ssap": INT, "miu": INT, "rw": ANY}}),
+    Spec(GROUP, "pdu_dps_decode", F, "DataProtectionSetup.decode", _DEC, calls=dict(_DH, **_PD),
+         records={"DataProtectionSetup": {"dsap": INT, "ssap": INT, "ecpk": ANY, "rn": ANY}}),
+    Spec(GROUP, "pdu_agf_encode", F, "AggregatedFrame.encode", [], calls=_EH,
+         binds=_HDR + [("[pdu.encode() for pdu in self._aggregate]", "encoded", LIST(BYTES))],
+         note="cut: the encodings of the aggregated PDUs (`[pdu.encode() for pdu in self._aggregate]`) are the parameter `encoded`"),
     # unknown
     Spec(GROUP, "pdu_unknown_decode", F, "UnknownProtocolDataUnit.decode", _DEC, calls=_DH,
          records={"UnknownProtocolDataUnit": {"ptype": INT, "dsap": INT, "ssap": INT, "payload": BYTES}}),
@@ -77,9 +111,21 @@ BRIDGE = {
         "dm_decode_bridge", "dm_encode_bridge", "frmr_decode_bridge", "frmr_encode_bridge",
         "ui_decode_bridge", "ui_encode_bridge", "ui_len_bridge", "i_decode_bridge", "i_encode_bridge", "i_len_bridge",
         "rr_decode_bridge", "rr_encode_bridge", "rnr_decode_bridge", "rnr_encode_bridge",
-        "unknown_decode_bridge", "unknown_encode_bridge", "gen_param_decode_total", "gen_header_roundtrip")],
+        "unknown_decode_bridge", "unknown_encode_bridge", "gen_param_decode_total", "gen_header_roundtrip",
+        # extension: PAX / CONNECT / CC / SNL / DPS / AGF
+        "pax_encode_bridge", "pax_len_bridge", "connect_encode_bridge", "connect_len_bridge", "cc_encode_bridge",
+        "cc_len_bridge", "dps_encode_bridge", "dps_len_bridge", "snl_encode_bridge", "snl_len_bridge",
+        "agf_encode_bridge", "agf_encode_model", "tlv_sim", "paramDecode_wt", "pax_decode_bridge",
+        "connect_decode_bridge", "cc_decode_bridge", "dps_decode_bridge")],
     "properties": ["C11", "C10", "C07"],
 }
+
+def _swap_snl_loops(seg):
+    l = seg.split("\n")
+    i = [k for k, x in enumerate(l) if "for sdreq in self.sdreq:" in x][0]
+    j = [k for k, x in enumerate(l) if "for sdres in self.sdres:" in x][0]
+    return "\n".join(l[:i] + l[j:j + 2] + l[i:i + 2] + l[j + 2:])
+
 
 MUTATIONS = [
     ("pdu_param_decode", "MIUX reserved-bit mask", "V = V & 0x07FF", "V = V & 0x0FFF"),
@@ -104,6 +150,25 @@ MUTATIONS = [
     ("pdu_i_decode", "payload end", "data[offset+3:offset+size]", "data[offset+3:offset+size+1]"),
     ("pdu_unknown_decode", "ptype extraction", "data[offset+1] >> 6", "data[offset+1] >> 5"),
     ("pdu_i_len", "header size", "return 3 + len(self.data)", "return 2 + len(self.data)"),
+    ("pdu_pax_encode", "seeded: LTO TLV omitted for the default value", "if self._lto is not None:", "if self._lto is not None and self._lto != 10:"),
+    ("pdu_encode_header_n", "seeded: packed sequence octet cached on the object",
+     "return data + struct.pack('!B', self.ns << 4 | self.nr)",
+     "if getattr(self, '_sequence', None) is None:\n            self._sequence = struct.pack('!B', self.ns << 4 | self.nr)\n        return data + self._sequence"),
+    ("pdu_pax_len", "WKS TLV length", "(4 if self._wks is not None else 0)", "(3 if self._wks is not None else 0)"),
+    ("pdu_connect_encode", "MIUX offset", "self.miu - 128", "self.miu - 127"),
+    ("pdu_connect_encode", "RW default not skipped", "self.rw != 1", "self.rw != 0"),
+    ("pdu_connect_len", "service name TLV header", "(2 + len(self.sn) if self.sn else 0)", "(1 + len(self.sn) if self.sn else 0)"),
+    ("pdu_cc_encode", "TLV type of RW", "Parameter.encode(Parameter.RW, self.rw)", "Parameter.encode(Parameter.LTO, self.rw)"),
+    ("pdu_snl_encode", "SDRES before SDREQ", _swap_snl_loops, None),
+    ("pdu_snl_len", "SDRES TLV size", "len(self.sdres) * 4", "len(self.sdres) * 3"),
+    ("pdu_dps_encode", "RN TLV type", "Parameter.encode(Parameter.RN, self.rn)", "Parameter.encode(Parameter.ECPK, self.rn)"),
+    ("pdu_agf_encode", "length field byte order", "struct.pack('!H', len(encoded_pdu))", "struct.pack('<H', len(encoded_pdu))"),
+    ("pdu_connect_decode", "MIU base", "connect_pdu.miu = 128 + V", "connect_pdu.miu = 127 + V"),
+    ("pdu_connect_decode", "loop advance", "offset, size = offset + 2 + L, size - 2 - L", "offset, size = offset + 2 + L, size - 1 - L"),
+    ("pdu_cc_decode", "RW TLV ignored", "elif T == Parameter.RW:", "elif T == Parameter.LTO:"),
+    ("pdu_pax_decode", "loop condition", "while size >= 2:", "while size >= 3:"),
+    ("pdu_pax_decode", "OPT stored as LTO", "pax_pdu._opt = V", "pax_pdu._lto = V"),
+    ("pdu_dps_decode", "address check dropped", "if dsap != 0 or ssap != 0:", "if dsap != 0 and ssap != 0:"),
     ("pdu_rr_decode", "NEUTRAL nothing observable (log text)", '"reserved bits set in sequence field"', '"reserved bits are set"'),
 ]
 
@@ -144,6 +209,44 @@ def inputs(rng, sp):
             d = pre + body + bytes(rng.randrange(256) for _ in range(rng.randrange(0, 3)))
             size = len(body) if rng.random() < 0.8 else rng.randrange(-2, 12)
             out.append(([d, len(pre) if rng.random() < 0.9 else rng.randrange(-3, len(d) + 2), size], []))
+    if sp.lean in ("pdu_pax_decode", "pdu_connect_decode", "pdu_cc_decode", "pdu_dps_decode"):
+        hdr = {"pdu_pax_decode": b"\x00\x40", "pdu_connect_decode": b"\x11\x20", "pdu_cc_decode": b"\x81\x90",
+               "pdu_dps_decode": b"\x02\x80"}[sp.lean]
+        for _ in range(200):
+            pre = bytes(rng.randrange(256) for _ in range(rng.randrange(0, 3)))
+            h = hdr if rng.random() < 0.9 else bytes([rng.randrange(256), rng.randrange(256)])
+            body = h + b"".join(_tlv(rng) for _ in range(rng.randrange(0, 5)))
+            if rng.random() < 0.15:
+                body = body[:rng.randrange(0, len(body) + 1)]
+            d = pre + body + bytes(rng.randrange(256) for _ in range(rng.randrange(0, 3)))
+            size = len(body) if rng.random() < 0.85 else rng.randrange(-2, len(d) + 3)
+            out.append(([d, len(pre) if rng.random() < 0.9 else rng.randrange(-3, len(d) + 2), size], []))
+        return out
+    if sp.lean.endswith("_len") and sp.lean not in ("pdu_ui_len", "pdu_i_len") or sp.lean in (
+            "pdu_pax_encode", "pdu_connect_encode", "pdu_cc_encode", "pdu_snl_encode", "pdu_dps_encode", "pdu_agf_encode"):
+        def val(name, ty):
+            if ty == ("opt", "int"):
+                return None if rng.random() < 0.4 else rng.choice([0, 1, 10, 255, 256, 2047, 65535, 65536, rng.randrange(300)])
+            if ty == ("opt", "bytes"):
+                return None if rng.random() < 0.3 else bytes(rng.randrange(256) for _ in range(rng.choice([0, 1, 5, 254, 255, 256])))
+            if ty == ("list", ("tuple", "int", "bytes")):
+                return [(rng.choice([0, 1, 255, 256]), bytes(rng.randrange(256) for _ in range(rng.choice([0, 3, 254, 255]))))
+                        for _ in range(rng.randrange(0, 4))]
+            if ty == ("list", ("tuple", "int", "int")):
+                return [(rng.choice([0, 1, 255, 256]), rng.choice([0, 16, 63, 255, 256])) for _ in range(rng.randrange(0, 4))]
+            if ty == ("list", "bytes"):
+                return [bytes(rng.randrange(256) for _ in range(rng.choice([0, 2, 7, 300]))) for _ in range(rng.randrange(0, 4))]
+            if name in ("dsap", "ssap"):
+                return rng.choice([0, 0, 0, 1, 32, 63, 64])
+            if name == "ptype":
+                return {"pdu_pax_encode": 1, "pdu_connect_encode": 4, "pdu_cc_encode": 6, "pdu_snl_encode": 9,
+                        "pdu_dps_encode": 10, "pdu_agf_encode": 2}.get(sp.lean, 0)
+            if name == "miu":
+                return rng.choice([0, 1, 128, 129, 2175, 2176, 65663, 65664])
+            return rng.choice([0, 1, 2, 15, 16, 255, 256])
+        for _ in range(200):
+            out.append(([], [val(name, ty) for (src, name, ty) in sp.binds]))
+        return out
     if sp.lean.endswith("_encode") or sp.lean.startswith("pdu_encode_header"):
         for _ in range(150):
             bv = []
